@@ -93,8 +93,35 @@ def _record(text):
             except TypeError:
                 r = 0
             extracts.append([k, skip, r])
+    # the same text once more: here the FIRST iterations the tree ever sees
+    # are abandoned ones; numbered like the first tree, so ids correspond
+    tree2 = parse(text)
+    ids2 = {}
+    count = [0]
+
+    def number2(n):
+        if id(n) in ids2:
+            return
+        count[0] += 1
+        ids2[id(n)] = count[0]
+        for c in reflect(n):
+            number2(c)
+    number2(tree2)
+
+    def is_ident(n):
+        return type(n).__name__ == 'Identifier'
+    try:
+        w.extract(tree2, is_ident)
+    except TypeError:
+        pass
+    it = w.walk(tree2)
+    for _ in range(3):
+        next(it, None)
+    del it
+    next(w.filter(tree2, lambda n: type(n).__name__ == kinds[-1]), None)
+    walk3 = [ids2.get(id(n), len(ch) + 99) for n in w.walk(tree2)]
     return ('ok', dict(ch=ch, kinds=kinds, walk=walk, walk2=walk2,
-                       filters=filters, extracts=extracts),
+                       walk3=walk3, filters=filters, extracts=extracts),
             sorted(shapes), extra)
 
 
